@@ -1,1 +1,77 @@
-Require Import Base Recipe.
+(* C09 -- get_substance_used reports the net gain of the destinations over the timeframe.
+   Model: Recipe.bake_steps (the trace of per-step snapshots), Recipe.used_raw / substance_used (the query, with its
+   substances_used filter and its double reading of a step whose source and destination are the same plate).
+   [dest_total s dests e] = amount of s inside the destinations in table e; [trash_total s t] = what the remove steps of t
+   discarded of s; [steps_ok]: substances are well formed and a created name still holds its empty placeholder when
+   its creating step runs (the API hands the name out when the step is added). *)
+Require Import Base Units Contents Container ContainerThm ContainerThm2 Dilute Solve Plate PlateThm Prog HistoryThm Recipe RecipeThm C09Thm.
+
+(* whole recipe, any destination set without repetitions, any substance (also one never used) *)
+Theorem C09_used_is_net_gain_plus_discarded : forall cf d13 s dests steps e e' tr,
+  NoDup dests -> renv_inv cf e -> steps_ok cf d13 e steps -> bake_steps cf d13 e steps = Ok (e', tr) ->
+  renv_inv cf e' /\
+  used_raw s dests tr == dest_total s dests e' - dest_total s dests e + trash_total s tr.
+Proof. exact used_raw_is_net_gain. Qed.
+Print Assumptions C09_used_is_net_gain_plus_discarded.
+
+(* a named stage = the steps s2 of s1 ++ s2 ++ s3: exactly the steps of the timeframe count, measured between the table
+   before its first and after its last step *)
+Theorem C09_timeframe : forall cf d13 s dests s1 s2 s3 e e' tr,
+  NoDup dests -> renv_inv cf e -> steps_ok cf d13 e (s1 ++ s2 ++ s3) -> bake_steps cf d13 e (s1 ++ s2 ++ s3) = Ok (e', tr) ->
+  exists e1 e2 t1 t2 t3,
+    bake_steps cf d13 e s1 = Ok (e1, t1) /\ bake_steps cf d13 e1 s2 = Ok (e2, t2) /\ bake_steps cf d13 e2 s3 = Ok (e', t3) /\
+    slice_of tr (length s1, (length s1 + length s2)%nat) = t2 /\
+    used_raw s dests (slice_of tr (length s1, (length s1 + length s2)%nat)) ==
+      dest_total s dests e2 - dest_total s dests e1 + trash_total s t2.
+Proof. exact used_over_timeframe. Qed.
+Print Assumptions C09_timeframe.
+
+Theorem C09_consecutive_stages_add_up : forall s dests (tr : list snap) i j k, (i <= j)%nat -> (j <= k)%nat ->
+  used_raw s dests (slice_of tr (i, k)) == used_raw s dests (slice_of tr (i, j)) + used_raw s dests (slice_of tr (j, k)).
+Proof. exact used_additive. Qed.
+Print Assumptions C09_consecutive_stages_add_up.
+
+(* the requested unit; a net decrease raises ValueError *)
+Theorem C09_unit_and_refusal : forall cf s dests tr u,
+  (used_raw s dests tr < 0 -> substance_used cf s dests tr u = Err EValue) /\
+  (0 <= used_raw s dests tr -> substance_used cf s dests tr u = Ok (conv_stored cf s (used_raw s dests tr) u)).
+Proof. exact substance_used_outcome. Qed.
+Print Assumptions C09_unit_and_refusal.
+
+(* the filter on substances_used never hides a change, and a transfer inside one plate nets to zero *)
+Theorem C09_step_facts : forall cf d13 s e st e' k,
+  renv_inv cf e -> wf_rstep st -> step_fresh e st -> bake_step cf d13 e st = Ok (e', k) -> facts cf s e' k.
+Proof. exact bake_step_facts. Qed.
+Print Assumptions C09_step_facts.
+
+(* not vacuous: a salt stock is made inside the recipe, dispensed into two wells, one well is emptied again, and the
+   plate is topped up; the hypotheses hold and the query over the plate is the salt still there plus the salt discarded *)
+Definition water := {| sid := 1; knd := Liquid; mw := 18; dens := 1; act := 1 |}.
+Definition salt := {| sid := 4; knd := Solid; mw := 58; dens := 1; act := 1 |}.
+Definition qy (v : Q) (p : Units.prefix) (b : base) := {| qval := v; qpfx := p; qbase := b |}.
+Definition demo_objs : renv :=
+  match new_plate default_cfg 2 1 2 (qy 500 Pu BL) with Ok p => [(2%nat, OP p)] | Err _ => [] end.
+Definition demo_steps : list rstep :=
+  [SCreate 1 None [(water, qy 10 Pm BL); (salt, qy 580 Pm BG)];
+   STransfer (RC 1) (RP 2 (RRect [0%nat] [0%nat; 1%nat])) (qy 100 Pu BL);
+   SRemove (RP 2 (RList [(0%nat, 1%nat)])) (WKind Solid);
+   SFill (RP 2 (RRect [0%nat] [0%nat; 1%nat])) water (qy 200 Pu BL)].
+Example C09_nonvacuous :
+  let e := declare_steps demo_objs demo_steps in
+  NoDup [2%nat] /\ renv_inv default_cfg e /\ steps_ok default_cfg true e demo_steps /\
+  exists e' tr, bake_steps default_cfg true e demo_steps = Ok (e', tr) /\
+     0 < trash_total salt tr /\ 0 < dest_total salt [2%nat] e' /\
+     used_raw salt [2%nat] tr == dest_total salt [2%nat] e' + trash_total salt tr /\
+     used_raw salt [2%nat] (slice_of tr (1%nat, 2%nat)) + used_raw salt [2%nat] (slice_of tr (2%nat, 4%nat))
+       == used_raw salt [2%nat] (slice_of tr (1%nat, 4%nat)).
+Proof.
+  cbv zeta. split; [repeat constructor; simpl; tauto|]. split.
+  - intros n o H. unfold declare_steps, demo_objs in H. simpl in H.
+    destruct n as [|[|[|n]]]; simpl in H; try discriminate; inversion H; subst; clear H.
+    + apply (make_container_inv default_cfg 1 None [] _ (Forall_nil _)). reflexivity.
+    + apply (new_plate_inv default_cfg 2 1 2 (qy 500 Pu BL)). reflexivity.
+  - split.
+    + vm_compute. repeat split; try reflexivity; try (repeat constructor; fail).
+    + eexists. eexists. split; [vm_compute; reflexivity|]. vm_compute. repeat split; reflexivity.
+Qed.
+Print Assumptions C09_nonvacuous.
